@@ -59,9 +59,15 @@ Definition glob_tail : stmt :=
   SSeq gdep_inc (SSeq (SSeq mark_init mark_loop) (SSeq visit_init (SSeq visit_loop (SSeq (SSeq sweep_init sweep_loop)
   (SSeq gdep_dec (SSeq (SExpr (ECall X_rstr_free [ELocal 4])) (SReturn (Some (EConst 0))))))))).
 (* what ec_glob does before it starts marking: the nesting guard, the default range, the address, `not`, the pattern *)
+(* the message of the guard is whatever string literal the C text passes to ex_show (a reworded message does not disturb the proofs) *)
+Definition guard_msg_block : nat :=
+  match fn_body cf_ec_glob with
+  | SSeq _ (SSeq _ (SSeq _ (SSeq _ (SSeq (SIf _ (SSeq (SExpr (ECall _ [EGlob g])) _) _) _)))) => g
+  | _ => O
+  end.
 Definition glob_guard : stmt :=
   SIf (EBin OGe I32 gdep_ld (EConst 7))
-      (SSeq (SExpr (ECall X_ex_show [EGlob G_lit_676c6f62616c206e657374696e6720746f6f2064_23])) (SReturn (Some (EConst 1)))) SSkip.
+      (SSeq (SExpr (ECall X_ex_show [EGlob guard_msg_block])) (SReturn (Some (EConst 1)))) SSkip.
 Definition glob_pct : stmt :=
   SIf (EAndAlso (ELNot (ELoad (Some I8) (EPtrAdd 1 (ELocal 0) (EConst 0)))) (ELNot gdep_ld)) (SExpr (EBuiltin BStrcpy [ELocal 0; EGlob G_lit_25_1])) SSkip.
 Definition glob_region : stmt :=
@@ -930,7 +936,7 @@ Qed.
    happens -- no line is marked, xgdep is not touched; the memory is the one ex_show leaves *)
 Theorem tr_ec_glob_too_deep ext fuel d vloc vcmd ba oa vtxt (m : mem) g v m' :
   cell_at m G_xgdep g -> 7 <= g -> i32 g ->
-  ext X_ex_show [VPtr G_lit_676c6f62616c206e657374696e6720746f6f2064_23 0] (glob_entry_mem m (VPtr ba oa)) = Ok (v, m') ->
+  ext X_ex_show [VPtr guard_msg_block 0] (glob_entry_mem m (VPtr ba oa)) = Ok (v, m') ->
   callx ext cprog fuel (S (S d)) F_ec_glob [vloc; vcmd; VPtr ba oa; vtxt] m = Ok (VInt 1, m').
 Proof.
   intros Hg H7 Hi Hshow.
